@@ -21,24 +21,44 @@ up)
     ip link add ${P}a$k netns $a type veth peer name ${P}b$k netns $b
     ip -n $a addr add 10.$((100+k)).0.1/24 dev ${P}a$k; ip -n $a link set ${P}a$k up
     ip -n $b addr add 10.$((100+k)).0.2/24 dev ${P}b$k; ip -n $b link set ${P}b$k up
+    # IPv6 on the same links: fd00:<100+k>::1 / ::2 (nodad: usable at once)
+    ip -n $a -6 addr add fd00:$((100+k))::1/64 dev ${P}a$k nodad
+    ip -n $b -6 addr add fd00:$((100+k))::2/64 dev ${P}b$k nodad
+    # static neighbour entries: no ARP / neighbour-discovery latency on the first packets
+    ma=$(ip netns exec $a cat /sys/class/net/${P}a$k/address); mb=$(ip netns exec $b cat /sys/class/net/${P}b$k/address)
+    ip -n $a neigh replace 10.$((100+k)).0.2 lladdr $mb dev ${P}a$k nud permanent
+    ip -n $b neigh replace 10.$((100+k)).0.1 lladdr $ma dev ${P}b$k nud permanent
+    ip -n $a -6 neigh replace fd00:$((100+k))::2 lladdr $mb dev ${P}a$k nud permanent
+    ip -n $b -6 neigh replace fd00:$((100+k))::1 lladdr $ma dev ${P}b$k nud permanent
     k=$((k+1))
   done
   # routing: everything to the right via the right neighbour, everything to the left via the left neighbour
   ip -n $(ns 0) route add default via 10.100.0.2
+  ip -n $(ns 0) -6 route add default via fd00:100::2
   k=1
   while [ $k -le $N ]; do
     r=$(ns $k)
     ip netns exec $r sysctl -qw net.ipv4.ip_forward=1 net.ipv4.icmp_ratelimit=0 net.ipv4.conf.all.rp_filter=0 net.ipv4.conf.default.rp_filter=0
+    ip netns exec $r sysctl -qw net.ipv6.conf.all.forwarding=1 net.ipv6.icmp.ratelimit=0
     ip -n $r route add default via 10.$((100+k)).0.2
+    ip -n $r -6 route add default via fd00:$((100+k))::2
     j=0
-    while [ $j -lt $((k-1)) ]; do ip -n $r route add 10.$((100+j)).0.0/24 via 10.$((100+k-1)).0.1; j=$((j+1)); done
+    while [ $j -lt $((k-1)) ]; do
+      ip -n $r route add 10.$((100+j)).0.0/24 via 10.$((100+k-1)).0.1
+      ip -n $r -6 route add fd00:$((100+j))::/64 via fd00:$((100+k-1))::1
+      j=$((j+1))
+    done
     k=$((k+1))
   done
   ip -n $(ns $((N+1))) route add default via 10.$((100+N)).0.1
+  ip -n $(ns $((N+1))) -6 route add default via fd00:$((100+N))::1
+  ip netns exec $(ns $((N+1))) sysctl -qw net.ipv6.icmp.ratelimit=0
+  ip netns exec $(ns 0) sysctl -qw net.ipv6.icmp.ratelimit=0
   ip netns exec $(ns $((N+1))) sysctl -qw net.ipv4.icmp_ratelimit=0
   ip netns exec $(ns 0) sysctl -qw net.ipv4.icmp_ratelimit=0
   # silent routers: forward, but never originate ICMP errors
   for s in "$@"; do
+    ip netns exec $(ns $s) ip6tables -A OUTPUT -p icmpv6 --icmpv6-type time-exceeded -j DROP 2>/dev/null || true
     ip netns exec $(ns $s) iptables -A OUTPUT -p icmp --icmp-type time-exceeded -j DROP 2>/dev/null || \
     ip netns exec $(ns $s) nft -f - <<NFT
 table ip vt { chain out { type filter hook output priority 0; icmp type time-exceeded drop; } }
